@@ -201,6 +201,7 @@ type checkResult struct {
 	obligations, discharged int
 	undecided               []string
 	wall                    float64
+	bounded                 []boundedReport
 }
 
 func runCommand(cmd, repo, verif, prop, tier string, seed int, args []string, timeout int) error {
@@ -515,6 +516,7 @@ func checkProperty(repo, verif, prop, tier string, seed, timeout int, writeEvide
 	// bounded stand-ins registered for this property (labelled bounded in the evidence)
 	bviol, breps, bhard := runBounded(repo, verif, prop, tier, seed)
 	cr.violations = append(cr.violations, bviol...)
+	cr.bounded = breps
 	for _, h := range bhard {
 		cr.hardErrors = append(cr.hardErrors, "bounded: "+h)
 	}
@@ -588,7 +590,11 @@ var globalAssumptions = []string{
 }
 
 func explanationFor(prop string, cr *checkResult) string {
-	return fmt.Sprintf("Contract-based deductive verification: the functions in this property's cone are symbolically executed from /repo's current SSA against their contracts (kept in the comment-only contracts_verif.go files); every generated obligation is discharged by an SMT solver for all inputs and all loop iterations. %d obligations generated, %d discharged.", cr.obligations, cr.discharged)
+	s := fmt.Sprintf("Contract-based deductive verification: the functions in this property's cone are symbolically executed from /repo's current SSA against their contracts (kept in the comment-only contracts_verif.go files); every generated obligation is discharged by an SMT solver for all inputs and all loop iterations. %d obligations claimed on this run, %d discharged; %d obligations of contracts still in progress are listed under undecided_not_locked and are not claimed.", cr.obligations, cr.discharged, len(cr.undecided))
+	for _, b := range cr.bounded {
+		s += fmt.Sprintf(" BOUNDED stand-in (not a proof): driver %s ran with bound [%s] and found %d divergence(s) from the reference model.", b.Driver, b.Bound, len(b.Violations))
+	}
+	return s
 }
 
 func (e *Engine) levelOf(verif, prop string) string {
